@@ -35,7 +35,11 @@ import (
 
 func TestSim(t *testing.T) {
 	// one run in four is the corner stratum: replies that need more than 255 fragments
-	hysim.Main(t, &hysim.Harness{Name: "c03srvudp", Gen: func(r *hysim.Rand, tier string) *hysim.Script { return genC03Srv(r, tier, r.Chance(1, 4)) }, Exec: execC03Srv})
+	hysim.Main(t,
+		&hysim.Harness{Name: "c03srvudp", Gen: func(r *hysim.Rand, tier string) *hysim.Script { return genC03Srv(r, tier, r.Chance(1, 4)) }, Exec: execC03Srv},
+		// the same workload in a race-detector build (part c03srvudprace)
+		&hysim.Harness{Name: "c03srvudprace", Gen: func(r *hysim.Rand, tier string) *hysim.Script { return genC03Srv(r, tier, r.Chance(1, 4)) }, Exec: execC03Srv},
+	)
 }
 
 const c03CanarySID = 0x7fc0ffee
@@ -423,10 +427,10 @@ func execC03Srv(x *hysim.Run) {
 				x.Ev("socket of session %#x fails", sid)
 			}
 		case "canary":
-			synctest.Wait()
+			hysim.Settle()
 			w.canary(mut.Clamp(op.Arg(0), 1, 3000), mut.Clamp(op.Arg(1), 1, 3000), &pid)
 		}
-		synctest.Wait()
+		hysim.Settle()
 		mut.AllocSince(x, a0, "server UDP session manager, op "+op.K, fmt.Sprintf("op args %v", op.A))
 	}
 	if w.parseDrop > 0 || w.forwarded > 1 {
